@@ -1106,6 +1106,52 @@ let run_pc_hyrax c =
              obs1 (k "check") "S" (hy_decision (DefaultBatch.default_batch_check fo hy_check cml qs evm pfl (vchal, [])));
              brecs.(t) <- Some (tr3, pfl, vperm)
            | _ -> ())
+        | [ "lc"; sq; ls ] ->
+          let chal = fs_of c (k "chal") and vchal = fs_of c (k "vchal") in
+          let ident = List.init n (fun i -> i) in
+          let pperm = if has c (k "pperm") then List.map int_of_string (get c (k "pperm")) else ident in
+          let vperm = if has c (k "vperm") then List.map int_of_string (get c (k "vperm")) else ident in
+          let otape = if has c (k "otape") then fs_of c (k "otape") else [] in
+          let lcs = List.map (fun (_, v) ->
+              let lb = nlabel (int_of_string (List.nth v 0)) in
+              let rec go = function
+                | co :: tm :: r -> (f_of_str co, (if tm = "one" then LC.TOne else LC.TPoly (lab (int_of_string tm)))) :: go r
+                | _ -> [] in
+              (lb, go (List.tl (List.tl v)))) (indexed c ("lcs." ^ sq)) in
+          let lcarr = Array.of_list lcs in
+          let tr3 = triples3 (get c ("lqs." ^ ls)) in
+          let idx_of_label l = let rec f i = if i >= n then 0 else if Z.equal (lab i) l then i else f (i + 1) in f 0 in
+          let lc_value (_, terms) z = List.fold_left (fun acc (co, tm) ->
+              fo.Field.fadd acc (match tm with
+                  | LC.TOne -> co
+                  | LC.TPoly l -> fo.Field.fmul co (MLPC.mle_eval fo polys.(idx_of_label l) z))) (tof Z.zero) terms in
+          let qs = List.sort_uniq (fun (l1, (p1, z1)) (l2, (p2, z2)) ->
+              let r = Z.compare l1 l2 in if r <> 0 then r else let r = Z.compare p1 p2 in if r <> 0 then r else cmpl z1 z2)
+              (List.map (fun (kk, zl, pj) -> (fst lcarr.(kk), (nlabel zl, pts.(pj)))) tr3) in
+          let tbl = Hashtbl.create 16 in
+          List.iter (fun (kk, _, pj) -> Hashtbl.replace tbl (Z.to_string (fst lcarr.(kk)) ^ "@" ^ String.concat "," (fs_to pts.(pj)))
+                        ((fst lcarr.(kk), pts.(pj)), lc_value lcarr.(kk) pts.(pj))) tr3;
+          let eqn_ev = List.sort (fun ((l1, z1), _) ((l2, z2), _) -> let r = Z.compare l1 l2 in if r <> 0 then r else cmpl z1 z2)
+              (Hashtbl.fold (fun _ v acc -> v :: acc) tbl []) in
+          obs (k "evals") "F" (fs_to (List.map snd eqn_ev));
+          let items = List.map (fun i -> (lab i, (i, snd cs.(i)))) pperm in
+          let open2 its z st = hy_open (List.map snd its) z st in
+          let eval_item (i, _) pt = MLPC.mle_eval fo polys.(i) pt in
+          let r = DefaultBatch.default_open_combinations fo open2 eval_item lcs items qs (chal, otape) in
+          obs1 (k "open") "S" (class_of r);
+          (match r with
+           | Result.Ok ((pfl, evs), _) ->
+             obs (k "lc_evals") "F" (fs_to evs);
+             obs1 (k "nproofs") "N" (string_of_int (List.length pfl));
+             List.iteri (fun g pfs ->
+                 obs1 (Printf.sprintf "pf.%d.%d.n" t g) "N" (string_of_int (List.length pfs));
+                 List.iteri (fun j pf ->
+                     obs (Printf.sprintf "pf.%d.%d.%d.coms" t g j) "L:basis" [ gel_tok pf.Hyrax.hp_com_eval; gel_tok pf.Hyrax.hp_com_d; gel_tok pf.Hyrax.hp_com_b ];
+                     obs (Printf.sprintf "pf.%d.%d.%d.z" t g j) "F" (fs_to pf.Hyrax.hp_z);
+                     obs (Printf.sprintf "pf.%d.%d.%d.s" t g j) "F" [ f_to_str pf.Hyrax.hp_zd; f_to_str pf.Hyrax.hp_zb; f_to_str pf.Hyrax.hp_reval ]) pfs) pfl;
+             let cml = List.map (fun i -> (lab i, fst cs.(i))) vperm in
+             obs1 (k "check") "S" (hy_decision (DefaultBatch.default_check_combinations fo hy_check lcs cml qs eqn_ev pfl (Some evs) (vchal, [])))
+           | _ -> ())
         | _ -> ()
       done;
       List.iter (fun (m, mv) ->
